@@ -77,6 +77,8 @@ impl EditState {
                 }
                 removed_chars = (removed_chars as f32 / 2.0).ceil() as i32;
                 for x in area.x_range() {
+                    // columns are counted from the left edge of the area, which is not 0 inside a selection
+                    let x = x - area.left();
                     let ch = if area.right() - x - removed_chars >= area.left() {
                         layer.get_char((area.right() - x - removed_chars, y))
                     } else {
